@@ -10,6 +10,7 @@ import z3
 
 Z3 = os.environ.get("PYVC_Z3", "z3-new")
 CVC5 = os.environ.get("PYVC_CVC5", "/usr/bin/cvc5")
+Z3_OLD = os.environ.get("PYVC_Z3_OLD", "/usr/bin/z3")
 
 
 def to_smt2(ob, want_model=False, with_axioms=True):
@@ -45,16 +46,70 @@ def run_solver(cmd, txt, timeout):
         return "timeout", "", time.time() - t0
 
 
+def race(cmds, txt, timeout):
+    """run several solver processes on the same query; the first sat/unsat wins, the others are killed"""
+    t0 = time.time()
+    procs = []
+    for name, cmd in cmds:
+        p = subprocess.Popen(cmd, stdin=subprocess.PIPE, stdout=subprocess.PIPE, stderr=subprocess.PIPE, text=True)
+        try:
+            p.stdin.write(txt)
+            p.stdin.close()
+        except BrokenPipeError:
+            pass
+        procs.append((name, p))
+    result = None
+    pending = list(procs)
+    last = ("none", "timeout", "")
+    while pending and time.time() - t0 < timeout + 3:
+        for name, p in list(pending):
+            if p.poll() is not None:
+                pending.remove((name, p))
+                out = (p.stdout.read() or "").strip()
+                first = out.splitlines()[0].strip() if out else ""
+                if first in ("sat", "unsat"):
+                    result = (name, first, out)
+                    break
+                last = (name, first if first in ("unknown",) else ("timeout" if "timeout" in out else "error"), out)
+        if result:
+            break
+        time.sleep(0.01)
+    for name, p in procs:
+        if p.poll() is None:
+            p.kill()
+        try:
+            p.stdout.close()
+            p.stderr.close()
+        except Exception:
+            pass
+    dt = time.time() - t0
+    if result:
+        return result[0], result[1], result[2], dt, None
+    return last[0], last[1], last[2], dt, None
+
+
 def discharge_one(args):
     idx, txt, timeout, strings, stages = args
     log = []
     # earlier stages use fewer hypotheses (no / only contract-requested lemma instances): sound for a proof
     for name, t_ in stages:
-        t1 = timeout
-        res, out, dt = run_solver([Z3, "-in", "-smt2", "-T:%d" % t1], t_, t1)
-        log.append(("z3-" + name, res, round(dt * 1000)))
+        t1 = min(timeout, 6)
+        if strings:
+            res, out, dt = run_solver([Z3, "-in", "-smt2", "-T:%d" % t1], t_, t1)
+            who = "z3"
+        else:
+            who, res, out, dt, _ = race([("z3", [Z3, "-in", "-smt2", "-T:%d" % t1]), ("z3-4.8.12", [Z3_OLD, "-in", "-smt2", "-T:%d" % t1])], t_, t1)
+        log.append((who + "-" + name, res, round(dt * 1000)))
         if res == "unsat":
-            return idx, res, "z3", log, None
+            return idx, res, who, log, None
+    if not strings:
+        # race the two z3 versions (different quantifier heuristics); first definite answer wins
+        who, res, out, dt, others = race([("z3", [Z3, "-in", "-smt2", "-T:%d" % timeout]),
+                                          ("z3-4.8.12", [Z3_OLD, "-in", "-smt2", "-T:%d" % timeout])], txt, timeout)
+        log.append((who, res, round(dt * 1000)))
+        if res in ("unsat", "sat"):
+            return idx, res, who, log, (out if res == "sat" else None)
+        return idx, res if res != "error" else "error:" + out[:300], None, log, None
     res, out, dt = run_solver([Z3, "-in", "-smt2", "-T:%d" % timeout], txt, timeout)
     log.append(("z3", res, round(dt * 1000)))
     model = out if res == "sat" else None
